@@ -2,6 +2,7 @@ package checks
 
 import (
 	"bytes"
+	"context"
 	"encoding/json"
 	"fmt"
 	"os"
@@ -9,6 +10,7 @@ import (
 	"sort"
 	"strings"
 	"sync"
+	"time"
 
 	openfgav1 "github.com/openfga/api/proto/openfga/v1"
 
@@ -412,6 +414,7 @@ func c13Interleave(ctx *core.Ctx, names []string, bound int, replay []int, share
 		res = rt.RunThreads(2_000_000, fns...)
 	}
 	ok := true
+	lost := false
 	judge := func(pts []rt.Point) bool {
 		ctx.Trans(1)
 		cs := c13Case{Sub: "interleavings", Ops: names, Choices: rt.Choices(pts)}
@@ -424,8 +427,12 @@ func c13Interleave(ctx *core.Ctx, names []string, bound int, replay []int, share
 		what := fmt.Sprintf("%v under schedule with %d preemptions", names, npre)
 		switch {
 		case res.Lost:
-			ctx.Violation("scheduler-lost-control", what+": a thread blocked outside the scheduler's control", cs, "", "")
-			ok = false
+			// a thread did not come back to the scheduler within the watchdog's 60 s: blocking outside the scheduler's
+			// control or a starved machine. A wall-clock observation is never a property verdict here: the exploration
+			// of this set of calls ends and says so; a real deadlock shows in the free-running pass (which has a timeout).
+			ctx.Cap(fmt.Sprintf("scheduler lost control of a thread while interleaving %v (watchdog 60 s); exploration of this set ended", names))
+			lost = true
+			return false
 		case res.Deadlock:
 			ctx.Violation("deadlock", what+": no thread enabled while some are unfinished", cs, "all calls return", fmt.Sprint(got))
 			ok = false
@@ -470,10 +477,10 @@ func c13Interleave(ctx *core.Ctx, names []string, bound int, replay []int, share
 	st := rt.Explore(cfg, body, judge)
 	ctx.Count("interleaving_executions", st.Executions)
 	ctx.Count("scheduling_points_total", st.Points)
-	if !st.Complete && ok {
+	if !st.Complete && ok && !lost {
 		ctx.Cap(fmt.Sprintf("interleaving exploration of %v hit its execution cap (60000) or the wall-clock cap", names))
 	}
-	return ok
+	return ok && !lost
 }
 
 func c13Interleavings(ctx *core.Ctx) {
@@ -572,12 +579,17 @@ func c13Race(ctx *core.Ctx) {
 		ctx.Note("race pass skipped: VERIF_RACE_BIN not set (run through bin/check)")
 		return
 	}
-	cmd := exec.Command(bin, "racepass")
+	cctx, cancel := context.WithTimeout(context.Background(), 15*time.Minute)
+	defer cancel()
+	cmd := exec.CommandContext(cctx, bin, "racepass")
 	cmd.Env = append(os.Environ(), "GORACE=halt_on_error=0 exitcode=0 history_size=5", "GOMAXPROCS=8")
 	var stderr, stdout bytes.Buffer
 	cmd.Stderr = &stderr
 	cmd.Stdout = &stdout
 	err := cmd.Run()
+	if cctx.Err() != nil {
+		err = fmt.Errorf("the free-running concurrent calls did not finish within 15 minutes (normally ~10 s): deadlock suspected")
+	}
 	ctx.Trans(1)
 	ctx.Eval(1)
 	if err != nil || !strings.Contains(stdout.String(), "racepass done") {
